@@ -5,8 +5,14 @@ import (
 	"math/big"
 	"testing"
 
+	"github.com/bartossh/Computantis/src/accountant"
+	"github.com/bartossh/Computantis/src/gossip"
+	"github.com/bartossh/Computantis/src/protobufcompiled"
 	"github.com/bartossh/Computantis/src/spice"
 	"pgregory.net/rapid"
+
+	"verif/harness/ref"
+	"verif/harness/sim"
 )
 
 // C05 — spice arithmetic is exact, atomic and canonical.
@@ -222,6 +228,11 @@ func TestC05(t *testing.T) {
 		}
 	})
 
+	t.Run("ledger", func(t *testing.T) {
+		c05LedgerStats = st
+		TestC05Ledger(t)
+	})
+
 	// Random part.
 	t.Run("random", func(t *testing.T) {
 		cur := rapid.OneOf(
@@ -277,7 +288,150 @@ func TestC05(t *testing.T) {
 	})
 }
 
+// c05Ledger: an amount that is not canonical is never accepted into the ledger (CreateLeaf, AddLeaf, notary Propose,
+// gossip handler, sync), and the snapshot stays unchanged.
+type c05LedgerCase struct {
+	Via  string `json:"via"`
+	C    uint64 `json:"c,string"`
+	S    uint64 `json:"s,string"`
+	Data int    `json:"data"`
+}
+
+func c05LedgerJudge(c c05LedgerCase, seed string) (sig, msg string, inconclusive string) {
+	s, err := newSvc(seed, 3, 3, false, 60)
+	if err != nil {
+		if s != nil {
+			s.close()
+		}
+		return "", "", "setup: " + err.Error()
+	}
+	defer s.close()
+	w := s.w
+	amt := spice.Melange{Currency: c.C, SupplementaryCurrency: c.S}
+	before, err := w.Snapshot(w.Nodes[0])
+	if err != nil {
+		return "", "", err.Error()
+	}
+	tx := w.MakeTx(1, 2, amt, c.Data)
+	tips := ref.SortedHashes(before.Tips())
+	var opErr error
+	var pn any
+	func() {
+		defer func() { pn = recover() }()
+		switch c.Via {
+		case "CreateLeaf":
+			_, opErr = s.book.CreateLeaf(bg, &tx)
+		case "AddLeaf":
+			v := w.Craft(w.RogueWallet(0), tx, tips[0], tips[0], 0)
+			cp := sim.CloneVertex(v)
+			opErr = s.book.AddLeaf(bg, &cp)
+		case "notary.Propose":
+			_, opErr = s.notary.Propose(bg, protoTx(&tx))
+		case "gossip.GossipVrx":
+			v := w.Craft(w.RogueWallet(0), tx, tips[0], tips[0], 0)
+			_, opErr = s.gossip.Server().GossipVrx(bg, &protobufcompiled.VrxMsgGossip{Vertex: gossip.VerifVertexToProto(v)})
+		case "LoadDag":
+			n, err := w.NewDetachedNode("c05-load")
+			if err != nil {
+				opErr = nil
+				return
+			}
+			v := w.Craft(w.RogueWallet(0), tx, w.Genesis.Hash, w.Genesis.Hash, 0)
+			ch := make(chan *accountant.Vertex, 3)
+			g := w.Genesis
+			ch <- &g
+			ch <- v
+			close(ch)
+			var cause error
+			n.Book.LoadDag(func(e error) { cause = e }, ch)
+			if n.Book.DagLoaded() {
+				opErr = nil
+			} else {
+				opErr = fmt.Errorf("not loaded: %v", cause)
+			}
+		}
+	}()
+	if pn != nil {
+		return "panic:" + c.Via, fmt.Sprintf("%s with amount (%d,%d) panicked: %v", c.Via, c.C, c.S, pn), ""
+	}
+	if opErr == nil && c.Via == "notary.Propose" && c.Data > 0 {
+		// a contract is only held as awaiting by Propose; the ledger is what must stay clean
+		after, err := w.Snapshot(w.Nodes[0])
+		if err == nil && after.Digest(true) == before.Digest(true) {
+			return "", "", ""
+		}
+	}
+	if opErr == nil {
+		return "noncanonical-amount-admitted:" + c.Via, fmt.Sprintf("%s accepted a transaction whose amount (currency %d, supplementary %d >= 10^18) is not canonical", c.Via, c.C, c.S), ""
+	}
+	after, err := w.Snapshot(w.Nodes[0])
+	if err != nil {
+		return "", "", err.Error()
+	}
+	if after.Digest(true) != before.Digest(true) {
+		return "refused-but-ledger-changed:" + c.Via, fmt.Sprintf("%s refused amount (%d,%d) but the ledger changed", c.Via, c.C, c.S), ""
+	}
+	return "", "", ""
+}
+
+func TestC05Ledger(t *testing.T) {
+	st := c05LedgerStats
+	if st == nil {
+		st = newStats(t, "C05", "ledger clause")
+	}
+	sim.Chdir(workDir(t))
+	sh, n := shard(), nshards()
+	idx := 0
+	failed := false
+	for _, via := range []string{"CreateLeaf", "AddLeaf", "notary.Propose", "gossip.GossipVrx", "LoadDag"} {
+		for _, cur := range []uint64{0, 1, ^uint64(0)} {
+			for _, supp := range []uint64{e18, e18 + 1, 2 * e18, 1 << 63, ^uint64(0)} {
+				for _, data := range []int{0, 8} {
+					idx++
+					if idx%n != sh {
+						continue
+					}
+					c := c05LedgerCase{Via: via, C: cur, S: supp, Data: data}
+					sig, msg, inc := c05LedgerJudge(c, fmt.Sprintf("c05l-%d", idx))
+					if inc != "" {
+						st.note("inconclusive ledger case: %s", inc)
+						continue
+					}
+					st.eval(1)
+					st.enumNontrivial(1)
+					st.label("ledger-ingress:" + via)
+					if sig != "" && st.reportOnce(sig, msg, map[string]any{"ledger": c}) {
+						failed = true
+					}
+				}
+			}
+		}
+	}
+	if failed {
+		t.Errorf("C05: non-canonical amounts reach the ledger")
+	}
+}
+
+var c05LedgerStats *stats
+
 func TestReplayC05(t *testing.T) {
+	var raw map[string]any
+	loadReplay(t, &raw)
+	if _, ok := raw["ledger"]; ok {
+		var w struct {
+			Ledger c05LedgerCase `json:"ledger"`
+		}
+		loadReplay(t, &w)
+		sim.Chdir(t.TempDir())
+		if sig, msg, _ := c05LedgerJudge(w.Ledger, "c05l-replay"); sig != "" {
+			t.Fatalf("VIOLATION reproduced sig=%s: %s", sig, msg)
+		}
+		return
+	}
+	replayC05Pure(t)
+}
+
+func replayC05Pure(t *testing.T) {
 	var c c05Case
 	loadReplay(t, &c)
 	sig, msg, _ := c05Judge(c)
